@@ -45,6 +45,8 @@ def cmd_run(dname, props, tier):
     d = SEEDED / dname
     pid = dname.split("-")[0]
     props = props or [pid]
+    if props == ["ALL"]:
+        props = [f"C{n:02d}" for n in range(1, 21)]
     if not clean():
         sys.exit("/repo is not clean")
     out = {"applied_to": sh(["git", "-C", str(REPO), "rev-parse", "--short", "HEAD"]).stdout.strip(), "tier": tier, "checks": {}}
